@@ -10,7 +10,9 @@ T-corr: the extracted models of MedianFilter / BilateralFilter / MedianForInterv
         the bridging rule (b)+(c): the spatial kernel and the range kernel (one value per
         occurring intensity difference) are computed with the filter's own numpy calls and given
         to the model as exact rationals, results compared with core.close.
-Spec  : independent brute-force oracles of the property sentence applied to the real outputs
+Spec  : the boolean Spec of the median step / of the array-level median extracted from Coq
+        (Model/FiltersCheck.v; proved to accept exactly what Spec/Filters.v accepts) applied to the
+        REAL outputs, and independent brute-force oracles of the property sentence applied to the real outputs
         (sort-based median of the valid window values; math.exp-based Gaussian weighted mean;
         what must not change compared bit for bit), and a crop metamorphic run (the interior of a
         crop is filtered like the same pixels of the whole map: independence of the blocks)."""
@@ -29,8 +31,8 @@ DRIVERS = ["x10"]
 RULE = ("synthetic disparity maps, values multiples of 1/4 in [-8, 8]; shapes from {3,7,49,50,51,99,100,101,103,205} x "
         "{3,5,52,101} (either orientation); invalid pixels (random flag combinations, ratio 0/20/60/100 %, rectangular "
         "blobs covering whole windows, a few NaN disparities on flag-valid pixels); median: filter_size 1/3/5/7 including "
-        "images smaller than the window (ValueError branch); bilateral: sigma_space in {0.25,0.4,0.5,1,1.5,2,6}, "
-        "sigma_color in {0.5,1,2,4}; median_for_intervals on two bound bands with their own NaN, with and without "
+        "images smaller than the window (returned untouched since the fix: commit); bilateral: sigma_space in {0.25,0.4,0.5,1,1.5,2,6}, "
+        "sigma_color in {0.05,0.5,1,2,4} (0.05: far range weights underflow to 0); median_for_intervals on two bound bands with their own NaN, with and without "
         "regularisation (interval_regularization observed by wrapping the module attribute); a case is non-trivial when "
         "the map has an interior valid pixel whose window holds an invalid pixel or >= 2 distinct valid values; distinct "
         "by (filter, shape, parameters, case seed)")
@@ -44,8 +46,11 @@ ASSUMES = [
     "rounding is bounded by the bridging tolerance 2^-18, not proved",
     "median_for_intervals with regularisation: interval_regularization is an oracle (its outputs are observed and handed "
     "to the model); the property only constrains the validity mask (bit 11) there",
-    "an image with fewer than filter_size - 1 rows or columns makes median/median_for_intervals raise ValueError "
-    "(as_strided): modelled (None) and compared; the theorems are stated for filter_size <= rows + 1, cols + 1",
+    "an image smaller than filter_size is returned untouched by median/median_for_intervals (after the fix: commit; as "
+    "found, fewer than filter_size - 1 rows or columns raised ValueError): modelled, compared, covered by the theorems",
+    "bilateral with an even window width win (e.g. sigma_space = 1 -> 4): the code centres the window on index win/2, so "
+    "it reaches win/2 pixels up/left and win/2 - 1 down/right; 'closer to the edge than the radius' is read as 'the "
+    "window does not fit in the image' (identical for odd widths)",
 ]
 TRUSTED = ["Gen/Constants.v produced by translator/gen_constants.py (ast pattern np.array_split(x, np.arange(B, n, B), axis); "
            "pandora.constants by import)"]
@@ -281,9 +286,12 @@ def run_median(ctx, model, p):
         err = exc_name(e)
     ctx.traces += 1
     impl = [] if err else [wire_map(ds["disparity_map"].data), wire_zmap(ds["validity_mask"].data)]
-    marg = (1, [0, w, ny, nx, wire_map(disp), wire_zmap(mask)])
+    marg = [(1, [0, w, ny, nx, wire_map(disp), wire_zmap(mask)])]
+    if not err:
+        # the boolean Spec extracted from Coq (Model/FiltersCheck.v, = Spec by median_step_spec_b_iff) on the REAL output
+        marg.append((5, [w // 2, ny, nx, wire_map(disp), wire_zmap(mask), impl[0], impl[1]]))
 
-    def after(mres):
+    def after(mres, spec_ok=None):
         val = valid_values(disp, mask)
         ctx.case(nontrivial_key(val, w, w // 2, ("median", ny, nx, w, p["inv"], p["seed"])))
         ctx.count("median_cases")
@@ -294,13 +302,19 @@ def run_median(ctx, model, p):
             ctx.mismatch("median", {"filter": "median", "params": p, "impl_error": err},
                          first_diff(impl, mres), None)
         if err:
-            if not (ny + 1 < w or nx + 1 < w):
-                ctx.violation("median_raises", f"median filter_size {w} on a {ny}x{nx} map raised {err}", {"filter": "median", "params": p})
+            # no size is outside the property: an image smaller than the window has no pixel farther from the edge
+            # than the radius, every pixel must come out untouched
+            ctx.violation("median_raises", f"median filter_size {w} on a {ny}x{nx} map raised {err}", {"filter": "median", "params": p})
             return
         rp = {"filter": "median", "params": p}
         if not np.array_equal(ds["validity_mask"].data, mask) or ds["validity_mask"].data.dtype != mask.dtype:
             ctx.violation("median_mask_changed", f"median {ny}x{nx}: validity mask changed", rp)
-        check_median_like(ctx, "median", disp, ds["disparity_map"].data, val, w, rp)
+        py_ok = check_median_like(ctx, "median", disp, ds["disparity_map"].data, val, w, rp)
+        ctx.count("median_spec_checker_runs")
+        if spec_ok != 1 and py_ok and np.array_equal(ds["validity_mask"].data, mask):
+            # (when the Python oracle fails too it has already reported the pixel)
+            ctx.violation("median_spec_checker", f"median {ny}x{nx} filter_size {w}: the extracted Spec checker "
+                          f"(median_step_spec_b) rejects the real output", rp)
         if ctx.rng.random() < 0.4:
             crop_check(ctx, "median", p, disp, mask, ds["disparity_map"].data, w // 2, w)
         if ny * nx > 5000:
@@ -379,6 +393,15 @@ def run_bilateral(ctx, model, p):
         deltas = np.zeros((1,), dtype=np.float32)
     rk = f.normalized_gaussian(deltas, sc)
     rk_tbl = [[wq(d), wq(x)] for d, x in zip(deltas.tolist(), np.asarray(rk, dtype=np.float64).tolist())]
+    # hypotheses of C10_bilateral_eq_weighted_mean on the kernels of THIS run (kernel_ok): nowhere negative, a pixel weighs
+    # on itself; strictly positive (kernel_pos) is counted, not required (far tails underflow to 0 in float32)
+    skf, rkf = np.asarray(sk, dtype=np.float64), np.asarray(rk, dtype=np.float64)
+    rk0 = rkf[deltas == 0]
+    if not (np.all(skf >= 0) and np.all(rkf >= 0) and skf[win // 2, win // 2] > 0 and len(rk0) == 1 and rk0[0] > 0
+            and np.all(np.isfinite(skf)) and np.all(np.isfinite(rkf))):
+        ctx.broken_obligation("bilateral_kernel_ok", f"the Gaussian kernels of sigma_space {ss}, sigma_color {sc} do not satisfy "
+                              f"the hypothesis kernel_ok of the bilateral theorems (negative, non-finite or zero self weight)")
+    ctx.count("bilateral_kernel_strictly_positive" if np.all(skf > 0) and np.all(rkf > 0) else "bilateral_kernel_with_zero_weights")
     marg = (2, [0, ny, nx, wq(ss), wire_map(np.asarray(sk, dtype=np.float64)), rk_tbl, wire_map(disp), wire_zmap(mask)])
 
     def after(mres):
@@ -490,6 +513,13 @@ def run_mfi(ctx, model, p):
     if spy_in is not None:
         margs.append((4, [0, w, ny, nx, wire_map(binf)]))
         margs.append((4, [0, w, ny, nx, wire_map(bsup)]))
+    n_corr = len(margs)
+    if not err:
+        # extracted Spec checker on the bands the real code produced (before regularisation when it is on)
+        b_inf = spy_in[0] if spy_in is not None else cm[:, :, 1]
+        b_sup = spy_in[1] if spy_in is not None else cm[:, :, 3]
+        margs.append((6, [w // 2, ny, nx, wire_map(binf), wire_map(np.asarray(b_inf, dtype=np.float32))]))
+        margs.append((6, [w // 2, ny, nx, wire_map(bsup), wire_map(np.asarray(b_sup, dtype=np.float32))]))
 
     def after(*mres):
         ctx.case(nontrivial_key(binf.astype(np.float64), w, w // 2, ("mfi", ny, nx, w, reg, p["inv"], p["seed"])))
@@ -500,8 +530,7 @@ def run_mfi(ctx, model, p):
         if impl != mres[0]:
             ctx.mismatch("median_for_intervals", {"filter": "mfi", "params": p, "impl_error": err}, first_diff(impl, mres[0]), None)
         if err:
-            if not (ny + 1 < w or nx + 1 < w):
-                ctx.violation("mfi_raises", f"median_for_intervals filter_size {w} on a {ny}x{nx} map raised {err}", {"filter": "mfi", "params": p})
+            ctx.violation("mfi_raises", f"median_for_intervals filter_size {w} on a {ny}x{nx} map raised {err}", {"filter": "mfi", "params": p})
             return
         if spy_in is not None:
             # the bands handed to the regularisation are the median-filtered bands
@@ -526,8 +555,12 @@ def run_mfi(ctx, model, p):
         # the same median on the bands (before regularisation when it is on)
         a_inf = spy_in[0] if spy_in is not None else cm[:, :, 1]
         a_sup = spy_in[1] if spy_in is not None else cm[:, :, 3]
-        check_median_like(ctx, "mfi_inf", binf, a_inf.astype(np.float32), binf.astype(np.float64), w, rp)
-        check_median_like(ctx, "mfi_sup", bsup, a_sup.astype(np.float32), bsup.astype(np.float64), w, rp)
+        ok1 = check_median_like(ctx, "mfi_inf", binf, a_inf.astype(np.float32), binf.astype(np.float64), w, rp)
+        ok2 = check_median_like(ctx, "mfi_sup", bsup, a_sup.astype(np.float32), bsup.astype(np.float64), w, rp)
+        ctx.count("mfi_spec_checker_runs", 2)
+        if ok1 and ok2 and list(mres[n_corr:n_corr + 2]) != [1, 1]:
+            ctx.violation("mfi_spec_checker", f"median_for_intervals {ny}x{nx} filter_size {w}: the extracted Spec checker "
+                          f"(median_map_spec_b) rejects a filtered bound band of the real code", rp)
     return margs, after
 
 
@@ -544,7 +577,7 @@ def gen_cases(rng, quick):
             w = rng.choice([1, 3, 3, 5]) if quick else w
         cases.append({"filter": "median", "ny": ny, "nx": nx, "w": w, "seed": rng.randrange(1 << 30),
                       "inv": rng.choice([0.0, 0.2, 0.2, 0.2, 0.6, 0.6]) if i % 12 else 1.0, "smooth": rng.random() < 0.5})
-    for _ in range(6 if quick else 40):  # tiny images, including the ValueError branch
+    for _ in range(6 if quick else 40):  # tiny images, including images smaller than the window
         cases.append({"filter": "median", "ny": rng.choice([1, 2, 3, 4, 6]), "nx": rng.choice([1, 2, 3, 5, 8]),
                       "w": rng.choice([3, 5, 7]), "seed": rng.randrange(1 << 30), "inv": 0.2, "smooth": False})
     n_bil = 40 if quick else 300
@@ -553,7 +586,7 @@ def gen_cases(rng, quick):
         ny, nx = gen_shape(rng, small=True)
         if ss >= 1.5 and ny * nx > 1300:
             ss = rng.choice([0.4, 0.5, 1.0])
-        cases.append({"filter": "bilateral", "ny": ny, "nx": nx, "sigma_space": ss, "sigma_color": rng.choice([0.5, 1.0, 2.0, 4.0]),
+        cases.append({"filter": "bilateral", "ny": ny, "nx": nx, "sigma_space": ss, "sigma_color": rng.choice([0.05, 0.5, 1.0, 2.0, 4.0]),
                       "seed": rng.randrange(1 << 30), "inv": rng.choice([0.0, 0.2, 0.2, 0.6])})
     n_mfi = 24 if quick else 200
     for i in range(n_mfi):
@@ -598,4 +631,5 @@ def run(ctx):
             after(*mres[k:k + n])
             k += n
     ctx.gen_obligations = ["1 <= Gen.Constants.median_block /\\ 1 <= Gen.Constants.bilateral_block (vm_compute)",
-                           "Gen.Constants.msk_pixel_interval_regularized = 2^11 (vm_compute)"]
+                           "Gen.Constants.msk_pixel_interval_regularized = 2^11 /\\ Gen.Constants.msk_pixel_invalid = bits 0,1,6,7,8,9 "
+                           "(reflexivity)"]
